@@ -12,19 +12,19 @@ static void vp_call(CK_ULONG code, CK_ULONG a0, CK_ULONG a1, CK_ULONG a2)
 }
 static CK_ULONG sig(const ByteString& b)
 {
-	size_t n = b.byteString.n;
-	return n == 0 ? 0 : ((CK_ULONG)b.byteString.d[0] | (n > 1 ? ((CK_ULONG)b.byteString.d[1] << 8) : 0));
+	size_t n = b.byteString.size();
+	return n == 0 ? 0 : ((CK_ULONG)VP_BV_AT(b.byteString, 0) | (n > 1 ? ((CK_ULONG)VP_BV_AT(b.byteString, 1) << 8) : 0));
 }
 // stand-in for ByteString(bytes, len): the length is kept as it is (any value), the first VP_BYTES_MAX bytes are copied
 ByteString::ByteString(const unsigned char* bytes, const size_t bytesLen)
 {
-	byteString.n = bytesLen;
-	for (size_t i = 0; i < VP_BYTES_MAX; i++) if (i < bytesLen) byteString.d[i] = bytes[i];
+	VP_BV_SET_LEN(byteString, bytesLen);
+	for (size_t i = 0; i < VP_BYTES_MAX; i++) if (i < bytesLen) VP_BV_AT(byteString, i) = bytes[i];
 }
 
 Slot* SlotManager::getSlot(CK_SLOT_ID slotID) { vp_call(K_SLOTMGR_GET, slotID, 0, 0); return IN(slotNull) ? (Slot*)0 : vp_slot(); }
 Token* Slot::getToken() { return IN(slotTokenNull) ? (Token*)0 : vp_token(); }
-CK_RV Slot::initToken(ByteString& soPIN, CK_UTF8CHAR_PTR label) { vp_call(K_SLOT_INIT_TOKEN, soPIN.byteString.n, sig(soPIN), label == NULL_PTR ? 0 : label[0]); return IN(callee_rv); }
+CK_RV Slot::initToken(ByteString& soPIN, CK_UTF8CHAR_PTR label) { vp_call(K_SLOT_INIT_TOKEN, soPIN.byteString.size(), sig(soPIN), label == NULL_PTR ? 0 : label[0]); return IN(callee_rv); }
 
 bool SessionManager::haveSession(CK_SLOT_ID slotID) { vp_call(K_SM_HAVE_SESSION, slotID, 0, 0); return IN(haveSession) != 0; }
 bool SessionManager::haveROSession(CK_SLOT_ID slotID) { vp_call(K_SM_HAVE_RO, slotID, 0, 0); return IN(haveRO) != 0; }
@@ -46,12 +46,12 @@ void SessionObjectStore::sessionClosed(CK_SESSION_HANDLE hSession) { vp_call(K_S
 void SessionObjectStore::allSessionsClosed(CK_SLOT_ID slotID) { vp_call(K_SOS_ALL_CLOSED, slotID, 0, 0); }
 void SessionObjectStore::tokenLoggedOut(CK_SLOT_ID slotID) { vp_call(K_SOS_TOKEN_LOGGED_OUT, slotID, 0, 0); }
 
-CK_RV Token::initUserPIN(ByteString& pin) { vp_call(K_TOK_INIT_USER_PIN, pin.byteString.n, sig(pin), 0); return IN(callee_rv); }
-CK_RV Token::setUserPIN(ByteString& oldPIN, ByteString& newPIN) { vp_call(K_TOK_SET_USER_PIN, oldPIN.byteString.n, newPIN.byteString.n, sig(oldPIN) | (sig(newPIN) << 16)); return IN(callee_rv); }
-CK_RV Token::setSOPIN(ByteString& oldPIN, ByteString& newPIN) { vp_call(K_TOK_SET_SO_PIN, oldPIN.byteString.n, newPIN.byteString.n, sig(oldPIN) | (sig(newPIN) << 16)); return IN(callee_rv); }
-CK_RV Token::loginSO(ByteString& pin) { vp_call(K_TOK_LOGIN_SO, pin.byteString.n, sig(pin), 0); return IN(callee_rv); }
-CK_RV Token::loginUser(ByteString& pin) { vp_call(K_TOK_LOGIN_USER, pin.byteString.n, sig(pin), 0); return IN(callee_rv); }
-CK_RV Token::reAuthenticate(ByteString& pin) { vp_call(K_TOK_REAUTH, pin.byteString.n, sig(pin), 0); return IN(callee_rv); }
+CK_RV Token::initUserPIN(ByteString& pin) { vp_call(K_TOK_INIT_USER_PIN, pin.byteString.size(), sig(pin), 0); return IN(callee_rv); }
+CK_RV Token::setUserPIN(ByteString& oldPIN, ByteString& newPIN) { vp_call(K_TOK_SET_USER_PIN, oldPIN.byteString.size(), newPIN.byteString.size(), sig(oldPIN) | (sig(newPIN) << 16)); return IN(callee_rv); }
+CK_RV Token::setSOPIN(ByteString& oldPIN, ByteString& newPIN) { vp_call(K_TOK_SET_SO_PIN, oldPIN.byteString.size(), newPIN.byteString.size(), sig(oldPIN) | (sig(newPIN) << 16)); return IN(callee_rv); }
+CK_RV Token::loginSO(ByteString& pin) { vp_call(K_TOK_LOGIN_SO, pin.byteString.size(), sig(pin), 0); return IN(callee_rv); }
+CK_RV Token::loginUser(ByteString& pin) { vp_call(K_TOK_LOGIN_USER, pin.byteString.size(), sig(pin), 0); return IN(callee_rv); }
+CK_RV Token::reAuthenticate(ByteString& pin) { vp_call(K_TOK_REAUTH, pin.byteString.size(), sig(pin), 0); return IN(callee_rv); }
 void Token::logout() { vp_call(K_TOK_LOGOUT, 0, 0, 0); }
 
 static long vp_slotmgr_store[4], vp_sm_store[4], vp_sos_store[4];
